@@ -45,28 +45,36 @@ fn held(b: &[(u64, u64); 3], k: usize, p: u64) -> bool {
     }
     r
 }
+// the list is read at CONCRETE indices (0..4) under a length guard: a loop bounded by the symbolic length makes every
+// element access a symbolic-index read of the heap buffer
 fn held_list(s: &Segments, p: u64) -> bool {
+    let n = s.len();
     let mut i = 0;
     let mut r = false;
-    while i < s.len() {
-        let e = s.verif_get(i);
-        if e.0 <= p && p < e.1 {
-            r = true;
+    while i < 4 {
+        if i < n {
+            let e = s.verif_get(i);
+            if e.0 <= p && p < e.1 {
+                r = true;
+            }
         }
         i += 1;
     }
     r
 }
 fn invariant(s: &Segments) -> bool {
+    let n = s.len();
     let mut i = 0;
-    let mut ok = true;
-    while i < s.len() {
-        let e = s.verif_get(i);
-        if !(e.0 < e.1) {
-            ok = false;
-        }
-        if i > 0 && !(s.verif_get(i - 1).1 < e.0) {
-            ok = false;
+    let mut ok = n <= 4;
+    while i < 4 {
+        if i < n {
+            let e = s.verif_get(i);
+            if !(e.0 < e.1) {
+                ok = false;
+            }
+            if i > 0 && !(s.verif_get(i - 1).1 < e.0) {
+                ok = false;
+            }
         }
         i += 1;
     }
@@ -203,19 +211,21 @@ fn gaps_step(k: usize) {
     let p: u64 = kani::any();
     let in_window = lo <= p && p < hi;
     let g = s.gaps(lo, hi);
-    let mut ok_shape = true;
+    let mut ok_shape = g.len() <= 4;
     let mut in_gap = false;
     let mut i = 0;
-    while i < g.len() {
-        let (a, c) = g[i];
-        if !(lo <= a && a < c && c <= hi) {
-            ok_shape = false;
-        }
-        if i > 0 && !(g[i - 1].1 < a) {
-            ok_shape = false;
-        }
-        if a <= p && p < c {
-            in_gap = true;
+    while i < 4 {
+        if i < g.len() {
+            let (a, c) = g[i];
+            if !(lo <= a && a < c && c <= hi) {
+                ok_shape = false;
+            }
+            if i > 0 && !(g[i - 1].1 < a) {
+                ok_shape = false;
+            }
+            if a <= p && p < c {
+                in_gap = true;
+            }
         }
         i += 1;
     }
